@@ -449,3 +449,28 @@ func (p *Prog) runningMax(fi *FuncInfo, node ast.Node, lhs *Term, rhs ast.Expr) 
 	}
 	return nil, false
 }
+
+// holdsAtAllCallers: fact(fs, subst) holds at every call site of the unexported
+// function fi (recursively through unexported callers, depth-limited). subst maps
+// fi's parameters to the caller's argument terms at the site being examined.
+// Used by "executed only under X" rules when the guarded statement was moved into a
+// helper: the guard then lives at the helper's call sites.
+func (p *Prog) holdsAtAllCallers(fi *FuncInfo, depth int, pred func(fs *FactSet, caller *FuncInfo, call *ast.CallExpr) bool) bool {
+	if fi == nil || fi.Obj == nil || depth > 2 || fi.Obj.Exported() {
+		return false
+	}
+	sites := p.CallsTo(fi.Obj)
+	if len(sites) == 0 {
+		return false
+	}
+	for _, s := range sites {
+		fs := p.FactsOf(rootFuncInfo(s.Fn)).AtNode(s.Call)
+		if pred(fs, s.Fn, s.Call) {
+			continue
+		}
+		if !p.holdsAtAllCallers(rootFuncInfo(s.Fn), depth+1, pred) {
+			return false
+		}
+	}
+	return true
+}
